@@ -217,8 +217,14 @@ class Machine(Interp):
                 continue
             kk = self.force(self.eval(k, env), n)
             if not (is_concrete_scalar(kk) or isinstance(kk, tuple)):
+                if isinstance(kk, Sym):
+                    self.setitem(d, kk, self.eval(v, env), n)  # upgrades d to an association list
+                    continue
                 raise Unsupported("dict literal with symbolic key", n)
-            d.d[self.dict_key(kk)] = self.eval(v, env)
+            if isinstance(d, SADict):
+                self.setitem(d, kk, self.eval(v, env), n)
+            else:
+                d.d[self.dict_key(kk)] = self.eval(v, env)
         return d
 
     def e_BinOp(self, n, env):
@@ -227,8 +233,22 @@ class Machine(Interp):
     def e_UnaryOp(self, n, env):
         return self.unaryop(n.op, self.eval(n.operand, env), n)
 
+    def _try_total(self, fn):
+        """inside specifications: evaluate without forking when possible (falls back to forking)"""
+        self.nofork += 1
+        try:
+            return True, fn()
+        except (Unsupported, PyRaise):
+            return False, None
+        finally:
+            self.nofork -= 1
+
     def e_BoolOp(self, n, env):
         is_and = isinstance(n.op, ast.And)
+        if self.in_spec and not self.nofork:
+            ok, r = self._try_total(lambda: self.e_BoolOp(n, env))
+            if ok:
+                return r
         if self.nofork:
             # total (non short-circuit) logical reading inside quantifier bodies
             vals = [self.eval(v, env) for v in n.values]
@@ -257,6 +277,10 @@ class Machine(Interp):
         left = self.eval(n.left, env)
         if len(n.ops) == 1:
             return self.compare(n.ops[0], left, self.eval(n.comparators[0], env), n)
+        if self.in_spec and not self.nofork:
+            ok, r = self._try_total(lambda: self.e_Compare(n, env))
+            if ok:
+                return r
         res = []
         for op, rn in zip(n.ops, n.comparators):
             right = self.eval(rn, env)
@@ -286,6 +310,10 @@ class Machine(Interp):
             a = self.eval(n.body, env)
             b = self.eval(n.orelse, env)
             return self.ite(c, a, b, n)
+        if self.in_spec:
+            ok, r = self._try_total(lambda: self.ite(c, self.eval(n.body, env), self.eval(n.orelse, env), n))
+            if ok:
+                return r
         if self.branch(c, n):
             return self.eval(n.body, env)
         return self.eval(n.orelse, env)
@@ -537,6 +565,19 @@ class Machine(Interp):
         if isinstance(it, SRange):
             if all(isinstance(x, int) for x in (it.lo, it.hi, it.step)):
                 return list(range(it.lo, it.hi, it.step))
+            if not self.nofork and isinstance(it.step, int) and getattr(self, "concretize_ranges", False):
+                # bounded mode: decide small symbolic bounds on this path
+                def conc(x):
+                    if isinstance(x, int):
+                        return x
+                    if isinstance(x, Sym) and x.k == "int":
+                        for c in range(-2, 9):
+                            if self.branch(x.t == c, node):
+                                return c
+                        raise Unsupported("range bound outside [-2, 8] in bounded mode", node)
+                    raise Unsupported("range bound %r" % (x,), node)
+
+                return list(range(conc(it.lo), conc(it.hi), it.step))
             raise Unsupported("range with symbolic bounds needs an invariant", node)
         if isinstance(it, SEnumerate):
             st = it.start
@@ -772,6 +813,9 @@ class Machine(Interp):
         env = Env(f.module, locs, f.closure, f, f.defcls)
         self.note_function(f)
         self.depth += 1
+        if not hasattr(self, "func_stack"):
+            self.func_stack = []
+        self.func_stack.append(f)
         try:
             if isinstance(f.node, ast.Lambda):
                 return self.eval(f.node.body, env)
@@ -782,6 +826,24 @@ class Machine(Interp):
             return None
         finally:
             self.depth -= 1
+            self.func_stack.pop()
+
+    def call_site_id(self, method, node):
+        """stable name of a call site: '<function>#<k>' = k-th call of ``method`` in the enclosing repo function"""
+        ln = getattr(node, "lineno", None)
+        for f in reversed(getattr(self, "func_stack", [])):
+            if isinstance(f.node, ast.FunctionDef) and f.module.path.startswith(self.repo.root):
+                calls = sorted(
+                    {(c.lineno, c.col_offset) for c in ast.walk(f.node) if isinstance(c, ast.Call) and isinstance(c.func, ast.Attribute) and c.func.attr == method}
+                )
+                for k, (l, co) in enumerate(calls):
+                    if l == ln and co == getattr(node, "col_offset", co):
+                        return "%s#%d" % (f.node.name, k + 1)
+                for k, (l, co) in enumerate(calls):
+                    if l == ln:
+                        return "%s#%d" % (f.node.name, k + 1)
+                return "%s#?" % f.node.name
+        return "@%s" % ln
 
     def note_function(self, f):
         if isinstance(f.node, ast.FunctionDef) and f.module.path.startswith(self.repo.root):
@@ -1371,7 +1433,7 @@ class Machine(Interp):
                 r = self.call_function(req, [s], {}, node)
             finally:
                 self.in_spec -= 1
-            self.check_clauses("call-pre[%s@%s]" % (short, ln), r, "call-pre")
+            self.check_clauses("%s/call-pre[%s@%s]" % (getattr(self, "check_prefix", ""), short, self.call_site_id(short.split(".")[-1], node)), r, "call-pre")
             self.assume_clauses(r)
         old = self.snapshot(s)
         # exceptional exits allowed by the callee contract
@@ -1442,7 +1504,7 @@ class Machine(Interp):
             else:
                 raise PyRaise("TypeError", node, msg="abstract call %s: missing %s" % (key, p))
         s = Namespace(locs)
-        s.d["G"] = Namespace(getattr(self, "ghost_state", None) or {})
+        s.d["G"] = getattr(self, "ghost_ns", None) or Namespace({})
         req = self.registry.contract_func(c, "requires")
         ens = self.registry.contract_func(c, "ensures")
         eff = self.registry.contract_func(c, "effect")
@@ -1453,7 +1515,7 @@ class Machine(Interp):
                 r = self.call_function(req, [s], {}, node)
             finally:
                 self.in_spec -= 1
-            self.check_clauses("call-pre[%s.%s@%s]" % (o.iface, name, ln), r, "call-pre")
+            self.check_clauses("%s/call-pre[%s.%s@%s]" % (getattr(self, "check_prefix", ""), o.iface, name, self.call_site_id(name, node)), r, "call-pre")
             self.assume_clauses(r)
         old = self.snapshot(s)
         exc_spec = getattr(c, "raises", {}) or {}
@@ -1465,7 +1527,7 @@ class Machine(Interp):
             # ghost-state update written as ordinary (interpreted) code
             self.call_function(eff, [s], {}, node)
         rt = getattr(c, "returns", None)
-        result = self.fresh(rt, "ret.%s.%s" % (o.iface, name)) if rt is not None else None
+        result = self.fresh(rt, "ret.%s.%s" % (o.iface, name), getattr(self, "shape", None)) if rt is not None else None
         if ens is not None:
             self.in_spec += 1
             try:
@@ -1473,9 +1535,10 @@ class Machine(Interp):
             finally:
                 self.in_spec -= 1
             self.assume_clauses(r)
-        log = getattr(self, "call_log", None)
-        if log is not None:
-            log.append((o.iface, name, [locs[p] for p in rest]))
+        self.abstract_returns.append((o.iface, name, result))
+        gs = getattr(self, "ghost_state", None)
+        if gs is not None and "log" in gs:
+            gs["log"].items.append(tuple(["%s.%s" % (o.iface, name)] + [locs[p] for p in rest] + [result]))
         return result
 
 
